@@ -14,7 +14,8 @@ schema-qualified names, every option).
 * table name: the one back-quoted token `schema.name` is split into the same schema and table (`tblOK`; excludes F-C18-3, dots inside
   the parts); `IF NOT EXISTS` free;
 * columns (`colOK`): the back-quoted name reads back (`nameOK`), ANY type word with no parameters or a parameter list of expression-fragment
-  trees of compute level (integers in practice; any number of parameters — 0, 1, 2, …), no `GENERATED` clause; for MySQL every attribute of
+  trees, each bracketed by the printer when above the compute level (integers in practice; any number of parameters — 0, 1, 2, …),
+  no `GENERATED` clause; for MySQL every attribute of
   `prDefCol` in the printer's order: UNSIGNED, ZEROFILL, CHARACTER SET s, COLLATE s, NULL, NOT NULL, AUTO_INCREMENT, DEFAULT e, ON UPDATE e
   (`e` any tree of the C02 expression fragment), COMMENT s; for the Hive rendering only COMMENT (the Hive printer writes nothing else:
   the other attributes must be unset — see `hiveProj` for tables that have them), and parameters only where the Hive printer keeps them;
@@ -255,9 +256,10 @@ def ddl1 : String :=
   "ENGINE=InnoDB AUTO_INCREMENT=0 DEFAULT CHARSET=utf8mb4 COLLATE=utf8mb4_bin ROW_FORMAT=DYNAMIC STATS_PERSISTENT=0 COMMENT='c, ''q'''"
 def ddl2 : String := "CREATE TABLE t (a int)"
 def ddl3 : String := "CREATE TABLE `t-1` (`x` char(1) COMMENT ',', y varchar(8) DEFAULT 'a,b')"
+def ddl5 : String := "CREATE TABLE t (a DECIMAL((1 = 1), 2) DEFAULT (1 OR 2), b enum('x','y,z') NOT NULL)"
 def ddl4 : String := "CREATE TABLE db.t (`id` bigint(20) NOT NULL COMMENT 'pk', v DECIMAL(10,2) COMMENT 'v', w double, z tinyint(1)) COMMENT='tc'"
 
-#guard okMy ddl1 && okMy ddl2 && okMy ddl3 && okMy ddl4
+#guard okMy ddl1 && okMy ddl2 && okMy ddl3 && okMy ddl4 && okMy ddl5
 -- a raw comment string that IS the comma token (no parse produces it) is outside the fragment (`segsOK`)
 #guard (match parseMy ddl2 with | some c => FragCreate .MYSQL c && !FragCreate .MYSQL { c with comment := some "=" , columns := c.columns.map fun x => { x with comment := some "," } } | none => false)
 #guard okConv ddl1 false && okConv ddl1 true && okConv ddl2 true && okConv ddl4 false && okConv ddl4 true
